@@ -40,7 +40,7 @@ def targets():
          pd.DCfg(threads={"<local>": pd.Ext("run_compiled", 2), "decide_policyset": pd.Ext("decide_policyset", 2),
                           "decide_policy": pd.Ext("decide_policy", 2)},
                  context_vars=("EVAL_LOOP",), oracle=False)),
-        (pd.Target("method", "Guard.__init__", "guard_init", splice=("_recompute_etag",)),
+        (pd.Target("method", "Guard.__init__", "guard_init", attrs=tuple(INIT_FIELDS), splice=("_recompute_etag",)),
          pd.DCfg(patterns=("json_dumps_sorted_utf8", "sha3_256_hexdigest"),
                  externals={"compile_policy": pd.Ext("compile_policy", 1), "BasicObligationChecker": pd.Ext("new_basic_checker", 0),
                             "threading.Lock": pd.Ext("new_lock", 0)},
@@ -62,13 +62,76 @@ def configs(repo: str):
     return src, cfgs, done
 
 
+def program_target():
+    """the cache range of `_evaluate_core_async` (the SAME statements as `engine_cache_proto` of src_translation_cacheproto) translated once
+    more as the evaluator's ACCESS PROGRAM: lock acquire / release and the reads of `_policy_gen` are effects, `self._cache_key(env)` and
+    `await self._decide_async(env)` are labelled external calls (`_cache_key`, `_decide_async`) — what they read is stated by
+    `cacheKeyReads` (below) and by the trace of `guard_decide_async`"""
+    import pytolean_decide as pd
+    return (pd.Target("range", "Guard._evaluate_core_async", "engine_eval_program", attrs=("cache", "_policy_gen#1", "_policy_gen#2", "cache_ttl"),
+                      start="after:if self.strict_types", last="before:decision_str =", trace_locks=True, trace_attrs=("_policy_gen",),
+                      occurrence_attrs=("_policy_gen",)),
+            pd.DCfg(externals={"self._cache_key": pd.Ext("cache_key", 1, "_cache_key"), "cache.get": pd.Ext("cache_get", 1, "cache.get"),
+                               "cache.set": pd.Ext("cache_set", 3, "cache.set", kw=("ttl",)),
+                               "self._decide_async": pd.Ext("decide_async", 1, "_decide_async")},
+                    context_vars=("REL_CHECKER", "REL_LOCAL_CACHE"), oracle=False))
+
+
+def cache_key_reads(src: str) -> list[str]:
+    """the attributes of `self` that `Guard._cache_key` (and the methods of the class it calls) READS, one entry per textual read in source
+    order: `self.X` / `getattr(self, "X", d)`"""
+    import ast
+    tree = ast.parse(src)
+    cls = next(n for n in tree.body if isinstance(n, ast.ClassDef) and n.name == "Guard")
+    methods = {n.name: n for n in cls.body if isinstance(n, (ast.FunctionDef, ast.AsyncFunctionDef))}
+    out: list[str] = []
+
+    def visit(fn, seen):
+        callee_nodes = set()
+        for n in ast.walk(fn):
+            if isinstance(n, ast.Call) and isinstance(n.func, ast.Attribute) and isinstance(n.func.value, ast.Name) and n.func.value.id == "self":
+                callee_nodes.add(id(n.func))
+        for n in sorted((n for n in ast.walk(fn) if hasattr(n, "lineno")), key=lambda n: (n.lineno, n.col_offset)):
+            if isinstance(n, ast.Attribute) and isinstance(n.value, ast.Name) and n.value.id == "self":
+                if id(n) in callee_nodes:
+                    if n.attr in methods and n.attr not in seen:
+                        visit(methods[n.attr], seen | {n.attr})
+                    elif n.attr not in methods:
+                        out.append(n.attr + "()")        # a call of something that is not a method of the class: reported as such
+                elif isinstance(n.ctx, ast.Load):
+                    out.append(n.attr)
+                else:
+                    out.append("WRITE " + n.attr)
+            if isinstance(n, ast.Call) and isinstance(n.func, ast.Name) and n.func.id in ("getattr", "setattr", "vars") and n.args \
+                    and isinstance(n.args[0], ast.Name) and n.args[0].id == "self":
+                out.append(n.args[1].value if n.func.id == "getattr" and len(n.args) >= 2 and isinstance(n.args[1], ast.Constant) else n.func.id + "(self…)")
+    visit(methods["_cache_key"], {"_cache_key"})
+    return out
+
+
 def extract(repo: str) -> dict:
-    _, _, done = configs(repo)
+    import pytolean_decide as pd
+    src, _, done = configs(repo)
+    target, cfg = program_target()
+    try:
+        done["engine_eval_program"] = pd.translate(src, target, cfg)
+    except pd.pp.Unsupported as e:
+        done["engine_eval_program"] = {"failed": " ".join(f"{target.designator}, {FILE}: {e}".split())}
+    try:
+        done["cache_key_reads"] = cache_key_reads(src)
+    except Exception as e:  # noqa: BLE001
+        done["cache_key_reads"] = ["<could not be read: " + " ".join(str(e).split()) + ">"]
     return done
 
 
 def render(f: dict) -> str:
+    import pytolean
     body = "\n".join(f[name]["lean"] for name in ORDER_OF_TARGETS)
+    prog = f.get("engine_eval_program") or {"failed": "not extracted"}
+    body += "\n" + (prog["lean"] if "lean" in prog else "-- engine_eval_program: the cache range could not be translated as an access program: "
+                    + " ".join(str(prog.get("failed")).split()) + "\n")
+    body += ("\n/-- the attributes of `self` that `Guard._cache_key` (with the methods of the class it calls) reads, one entry per textual read -/\n"
+             "def cacheKeyReads : List String := [" + ", ".join(pytolean.lean_str(a) for a in f.get("cache_key_reads", [])) + "]\n")
     alts = []
     for name in ORDER_OF_TARGETS:
         fr = f[name]
